@@ -119,12 +119,16 @@ structure Acc where
   allow : Nat
 deriving Repr
 
-/-- The facts of one function. `escapes`: callable from outside the call graph seen here
-(exported, a method, or used as a value). -/
+/-- The facts of one function.  `leaks`: a reference to (or held in) the package-level variable
+`tgt` leaves the function — returned, stored into memory, sent, or passed to a function of the
+packages; `allow` = k+1 when the variable is explained by entry k of `global_refs_ok` in
+allow.json, else 0 (`held` is unused).  `escapes`: callable from outside the call graph seen
+here (exported, a method, or used as a value). -/
 structure Fn where
   reads : List Acc
   writes : List Acc
   calls : List Acc
+  leaks : List Acc
   escapes : Bool
 deriving Repr
 
@@ -279,5 +283,15 @@ def GuardedLocations (F : Facts) : Bool :=
     F.fns.all fun fn =>
       fn.writes.all (fun w => !Nat.beq w.tgt g.1 || heldExcl g.2.1 w.held) &&
       (!g.2.2 || fn.reads.all (fun r => !Nat.beq r.tgt g.1 || heldHas g.2.1 r.held))
+
+/-- NoGlobalEscapes: a reference to the object of a package-level variable leaves a function
+only during package initialisation, or the variable is explained in the reviewed list.  This is
+the checkable part of the assumption behind `locOf`: memory that is not a package-level variable
+belongs to one module set (instance).  A package-level object that became reachable from the
+entries or nodes of a set would be shared by every set of the process while its fields are named
+(type, field) like private memory — the theorems would not speak about it.  (Only the first
+level is seen: a reference loaded from a field of such an object is named by the field.) -/
+def NoGlobalEscapes (F : Facts) : Bool :=
+  allIdx F.fns (fun i fn => fn.leaks.all (fun l => !Nat.beq l.allow 0 || memN i F.initOnly))
 
 end Goyang.Model.Lockset
